@@ -1502,7 +1502,7 @@ pub struct KnownKeyFlags {
     #[bits(1)]
     group: bool,
     #[bits(2)]
-    _padding1: u8,
+    reserved1: u8,
 
     /// Non-standard Additional Decryption SubKey flag
     ///
@@ -1517,7 +1517,7 @@ pub struct KnownKeyFlags {
     #[bits(1)]
     timestamping: bool,
     #[bits(4)]
-    _padding2: u8,
+    reserved2: u8,
 }
 
 /// Features signature subpacket.
